@@ -149,7 +149,8 @@ pub fn run_check(prop: &str, tier: &str) -> i32 {
             s.extend(suites::full_ttl_suites(thorough));
             s.sort_by_key(|x| (x.name.starts_with("focus"), x.cfg.persistent));
             // range results of a sequential history are part of the C01 statement (the model words them as C14)
-            seq_check(prop, tier, s, &["C01", "C14"], budget, &mut report);
+            // ... and so is an automatic write the store refuses as older (worded as C12)
+            seq_check(prop, tier, s, &["C01", "C14", "C12"], budget, &mut report);
         }
         "C02" => {
             let s = suites::crash_suites(thorough);
